@@ -49,6 +49,9 @@ def run(ctx):
         if i % 3 == 1:
             p["halves"] = True       # fractional coordinates; batches on the even lattice arrive with an integer dtype
             p["feed"]["kinds"] = [k for k in p["feed"]["kinds"] if k in ("intarray", "lists", "intframe")] or ["intarray"]
+        if i % 6 == 5:
+            p["tiny"] = True
+            p.pop("feed", None)
         t3.append(D.run_nndvi(p, D.nndvi_history(rng, nb, equal_sizes=(i % 4 == 0), some_even=bool(p.get("halves"))), seed=rng.randrange(10 ** 6)))
     ctx.validate("NNSP", t3, "NNDVI batch histories (unequal batch sizes)", sabotage=D.sabotage,
                  replay=lambda i: {"mode": "nndvi", "params": t3[i]["params"], "script": t3[i]["script"], "seed": t3[i]["seed"]},
